@@ -148,6 +148,8 @@ pub struct FnSpec {
     pub has_gen: bool,
     /// no written return type: only the trace shows that (and how) the fn ran
     pub ret_unit: bool,
+    /// async under `?Send`: the body keeps a !Send value alive across its await point
+    pub hold_rc: bool,
 }
 
 /// Parameter names whose alphabetical order differs from their declared order (a bug that sorts or hashes names must show).
@@ -271,7 +273,11 @@ impl FnSpec {
             }
         }
         if self.is_async {
-            s.push_str("    crate::rt::yield_once().await;\n");
+            if self.hold_rc {
+                s.push_str("    let __rc = ::std::rc::Rc::new(0u8);\n    crate::rt::yield_once().await;\n    let _ = *__rc;\n");
+            } else {
+                s.push_str("    crate::rt::yield_once().await;\n");
+            }
         }
         let mut sum = String::from("0u32");
         if self.deps != Deps::NoDeps && self.deps != Deps::Concrete {
